@@ -72,6 +72,8 @@ func main() {
 		os.Exit(cmdWriters(os.Args[2:]))
 	case "paths":
 		os.Exit(cmdPaths(os.Args[2:]))
+	case "golden":
+		os.Exit(cmdGolden(os.Args[2:]))
 	case "linpaths":
 		os.Exit(cmdLinPaths(os.Args[2:]))
 	case "explain":
